@@ -445,6 +445,19 @@ func (cs *c08Server) hook() {
 
 // monitorIdle is the barrier after Up: the limiter's monitor has seen a successful ping
 // (redisAlive = 1) and has ended.  It reads the limiter's fields only to wait, never to judge.
+// c08Reachable: after a Restart go-redis' pool may keep answering with a cached dial error until its
+// background re-dial (1 s period) succeeds; the next model step must not start before the client can
+// reach the server again (a wait that is part of the Up step, like the wait for the monitor's ping).
+func c08Reachable(s *miniredis.Miniredis) bool {
+	return kit.WaitFor(30*time.Second, func() bool {
+		if redis.New(s.Addr()).Ping() {
+			return true
+		}
+		time.Sleep(10 * time.Millisecond)
+		return false
+	})
+}
+
 func monitorIdle(tl *TokenLimiter) bool {
 	if atomic.LoadUint32(&tl.redisAlive) != 1 {
 		return false
@@ -502,6 +515,7 @@ func runC08Token(c kit.Case, cs *c08Server, store *redis.Redis, rep *kit.Reporte
 				cs.hook()
 			}
 		}
+		c08Reachable(s)
 		kit.WaitFor(c08BarrierTime(), func() bool { return monitorIdle(tl) })
 	}()
 	now := int64(0)
@@ -585,6 +599,9 @@ func runC08Token(c kit.Case, cs *c08Server, store *redis.Redis, rep *kit.Reporte
 			alive = true
 			v.Steps++
 			trail = append(trail, "up")
+			if !c08Reachable(s) {
+				return infra("server not reachable 30 s after restart")
+			}
 			if kit.Bool(st["ping"]) {
 				rep.Count("up.ping", 1)
 				// part of the step: the monitor pings every 100 ms of wall-clock time
